@@ -177,7 +177,11 @@ func watchdog() {
 		d2 := fullDump()
 		res := &h.Result{Name: spec.Name, Class: spec.Class, Seed: spec.Seed, Obs: map[string]int{}, FP: map[string]string{}}
 		verdict, frames := classifyStall(d1, d2)
-		if verdict == "deadlock" {
+		if verdict == "lock-across-store-call" {
+			res.Viol = append(res.Viol, h.Violation{Prop: "C09", Clause: "lock-across-store-call", Sig: "lock-held-across-store-call:" + frames,
+				Detail: "a store call is in flight on a goroutine that holds a library lock which these are waiting for (a stop call would wait as long as the store takes): " + frames})
+			res.Fatal = "lock-across-store-call"
+		} else if verdict == "deadlock" {
 			props := []string{stallProp(spec)}
 			if props[0] == "C11" && strings.Contains(strings.ToLower(frames), "stop") {
 				props = append(props, "C09") // a stop call is among the blocked: both properties rule it out
@@ -255,6 +259,24 @@ func classifyStall(d1, d2 string) (string, string) {
 	}
 	if len(mutexLib) == 0 {
 		return "stall", "no library goroutine on a mutex"
+	}
+	// A store call in flight underneath library frames (the reference store sleeps its
+	// latency on the virtual clock) while another library goroutine waits for a mutex: the
+	// library holds that lock across the store call. In the bubble the clock then cannot
+	// advance; in real time every caller that needs the lock - Stop among them - waits as long
+	// as the store takes to answer. Not a deadlock, but no better for C09: named as what it is.
+	for _, g := range strings.Split(d2, "\n\n") {
+		if strings.Contains(g, "verifharness/h.(*Client).do") && strings.Contains(g, "verifharness/h.(*Store).sleep") && strings.Contains(g, "NATS-Leader-Election/leader.") {
+			var fs []string
+			for l := range mutexLib {
+				if i := strings.Index(l, "["); i >= 0 {
+					l = l[:i]
+				}
+				fs = append(fs, l)
+			}
+			sortStrings(fs)
+			return "lock-across-store-call", strings.Join(dedup(fs), ",")
+		}
 	}
 	var fs []string
 	for l := range mutexLib {
